@@ -50,7 +50,7 @@ def lookup(K, i):
     return e
 
 
-def resolve_copy(S, tag, n_imports, n_declared, n_defined):
+def resolve_copy(S, tag, n_imports, n_declared, n_defined, prefix=None):
     fn = [g for g in S.prog.fns if (re.search(r'(^|::)validation::resolve_type$', g.name) or g.name == 'resolve_type') and '::verif' not in g.name]
     if len(fn) != 1:
         raise mir.Unsupported('resolve_type: %d candidates' % len(fn))
@@ -104,7 +104,7 @@ def resolve_copy(S, tag, n_imports, n_declared, n_defined):
             oc = ('item', key if z3.is_expr(key) else z3.StringVal(str(key)), kd, ndg)
         else:
             oc = ('other:' + str(kind[:3]), None, None, ndg)
-        pcs = rename(list(s2.pc) + [x for x in oc[1:3] if z3.is_expr(x)], shared, tag + '!')
+        pcs = rename(list(s2.pc) + [x for x in oc[1:3] if z3.is_expr(x)], shared, (prefix or tag) + '!')
         npc = len(s2.pc)
         ren = pcs[npc:]
         oc2 = [oc[0]]
@@ -228,3 +228,108 @@ def imports_pair(S, n, nres, na, nb):
             elif r != z3.unsat:
                 viol.append({'what': 'solver returned unknown'})
     return pairs, nq, viol
+
+
+# ---- C11: independence of the hash-order choices inside one file ---------------------------------------------------------------
+def choice_pair_resolve(S, n_imports, n_declared, n_defined):
+    """resolve_type twice on the SAME inputs (same key map, same sets) with independent hash orders: outcomes must agree"""
+    A, I, K = resolve_copy(S, 'A', n_imports, n_declared, n_defined, prefix='A')
+    B, _I, _K = resolve_copy(S, 'A', n_imports, n_declared, n_defined, prefix='B')
+    N = z3.String('t.%d' % S.structs['Type'].index('name'))
+    nq, viol, pairs = 0, [], 0
+    for pa, oa in A:
+        for pb, ob in B:
+            pairs += 1
+            differ = []
+            if oa[0] != ob[0] or oa[3] != ob[3]:
+                differ = [z3.BoolVal(True)]
+            else:
+                for x, y in zip(oa[1:3], ob[1:3]):
+                    if z3.is_expr(x) and z3.is_expr(y):
+                        if not x.eq(y):
+                            differ.append(x != y)
+                    elif x != y:
+                        differ = [z3.BoolVal(True)]; break
+            if not differ:
+                continue
+            s = z3.Solver(); s.set('timeout', 60000)
+            s.add(*pa); s.add(*pb); s.add(z3.Or(differ))
+            r = s.check(); nq += 1
+            if r == z3.sat:
+                m = s.model()
+                viol.append({'what': 'the classification of a type reference depends on the iteration order of the import set',
+                             'name': str(m.eval(N, True)), 'imports': [str(m.eval(i, True)) for i in I], 'keys': [str(m.eval(k, True)) for k, _d in K],
+                             'resultA': oa[0], 'resultB': ob[0]})
+                if len(viol) >= 2:
+                    return pairs, nq, viol
+            elif r != z3.unsat:
+                viol.append({'what': 'solver returned unknown'})
+    return pairs, nq, viol
+
+
+def declared_copy(S, prefix, n, nimp, nres):
+    import c06
+    fn = [g for g in S.prog.fns if re.search(r'(^|::)validation::check_declared_parcelables$', g.name) and '::verif' not in g.name]
+    if len(fn) != 1:
+        raise mir.Unsupported('check_declared_parcelables: %d candidates' % len(fn))
+    ex = tmir.Exec(S.prog, S.enums, S.structs)
+    ex.explicit_new = True
+    ex.models = {r'Import::get_qualified_name$': c06.qmodel}
+    decl = ex.obj('decl', 'Vec<Import>')
+    imports, resolved, diags = ex.obj('imports', 'HashMap'), ex.obj('resolved', 'HashSet'), ex.obj('diags', 'Vec')
+    R = [z3.String('R%d' % k) for k in range(nres)]
+    IM = [(z3.String('IK%d' % k), ex.obj('imp%d' % k, 'Import')) for k in range(nimp)]
+    ex.memo[('coll', 'resolved')] = R
+    ex.memo[('coll', 'imports')] = IM
+    st = tmir.State()
+    st.lens['decl'] = n
+    if nimp > 1:
+        st.pc += [z3.Distinct(*[k for k, _v in IM])]
+    paths = ex.run_fn(fn[0], [decl, imports, resolved, diags], st)
+    out = []
+    for s2, ret in paths:
+        if tc.model_of(s2) is None:
+            continue
+        D = [x for x in (c06.diag_fields(e) for e in s2.events if e[0] in ('push', 'diag')) if x]
+        oc = tuple(sorted((d['kind'], d['range'], tuple(d['related']), d['msg']) for d in D))
+        cs = {}
+        for e in s2.pc:
+            consts_of(e, cs)
+        shared = {n_ for n_ in cs if n_.startswith('decl[') or n_.startswith('imp') or n_.startswith('IK') or re.match(r'R\d+$', n_)}
+        out.append((rename(list(s2.pc), shared, prefix + '!'), oc, [d['range'] for d in D]))
+    return out
+
+
+def choice_pair_declared(S, n, nimp, nres):
+    A = declared_copy(S, 'A', n, nimp, nres)
+    B = declared_copy(S, 'B', n, nimp, nres)
+    nq, viol, pairs = 0, [], 0
+    for pa, oa, _r in A:
+        for pb, ob, _r2 in B:
+            pairs += 1
+            if oa == ob:
+                continue
+            s = z3.Solver(); s.set('timeout', 60000)
+            s.add(*pa); s.add(*pb)
+            r = s.check(); nq += 1
+            if r == z3.sat:
+                viol.append({'what': 'the diagnostics of the forward declarations depend on the iteration order of the import map',
+                             'diagsA': [x[:3] for x in oa], 'diagsB': [x[:3] for x in ob]})
+                if len(viol) >= 2:
+                    return pairs, nq, viol
+            elif r != z3.unsat:
+                viol.append({'what': 'solver returned unknown'})
+    return pairs, nq, viol
+
+
+def hash_ordered_ranges(S):
+    """diagnostics pushed while iterating a hash container: on every path their ranges are pairwise distinct statements, so
+    the stable final sort cannot leave a hash-dependent tie"""
+    bad, n = [], 0
+    for out in (imports_copy(S, 'A', 2, 1, 1)[0], declared_copy(S, 'A', 2, 2, 1)):
+        for p in out:
+            n += 1
+            rg = p[2] if len(p) > 2 else [x[1] for x in p[1]]
+            if len(set(rg)) != len(rg):
+                bad.append('two diagnostics of one path share the range %s' % [r for r in rg if rg.count(r) > 1][0])
+    return n, bad
